@@ -8,6 +8,7 @@
 package main
 
 import (
+	"regexp"
 	"bytes"
 	"encoding/binary"
 	"encoding/json"
@@ -660,6 +661,8 @@ func tail(s string, n int) string {
 	return s
 }
 
+var reCaseKind = regexp.MustCompile(`^[^0-9:]*`)
+
 func headline(stderr string) string {
 	head := "no headline"
 	for _, l := range strings.Split(stderr, "\n") {
@@ -672,6 +675,18 @@ func headline(stderr string) string {
 	if len(head) > 100 {
 		head = head[:100]
 	}
+	// … and the kind of workload that was running (the case description up
+	// to its first digit): the same function can be the place where two
+	// different defects end
+	kind := ""
+	for _, l := range strings.Split(stderr, "\n") {
+		if strings.HasPrefix(l, "verif-case: ") {
+			kind = strings.TrimSpace(reCaseKind.FindString(strings.TrimPrefix(l, "verif-case: ")))
+		}
+	}
+	if kind != "" {
+		kind = " [" + kind + "]"
+	}
 	// name the library function the dying goroutine was in, so that two
 	// different crashes do not share a signature
 	for _, l := range strings.Split(stderr, "\n") {
@@ -680,10 +695,10 @@ func headline(stderr string) string {
 			if i := strings.LastIndex(l, "("); i > 0 {
 				l = l[:i]
 			}
-			return head + " in " + strings.TrimPrefix(l, "github.com/skx/evalfilter/v2")
+			return head + " in " + strings.TrimPrefix(l, "github.com/skx/evalfilter/v2") + kind
 		}
 	}
-	return head
+	return head + kind
 }
 
 // confirmDeath replays one case alone, twice; only a reproducible death or
